@@ -221,10 +221,14 @@ def drive_c19(tier, seed, cfg):
                         if rc != 0 and so and not any(v[0] == "stdout-not-empty-on-failure" for v in out_v):
                             out_v.append(("stdout-not-empty-on-failure", dict(rc=rc, stdout=so[:100]), rp))
         # the same bytes under file names without the .tjp suffix: stdout must be byte-identical (seeded change C19-b)
-        for alias in ("copy.txt", "copy_noext", "copy.tjp.bak"):
+        for alias in ("copy.txt", "copy_noext", "copy.tjp.bak", "line\nbreak.tjp", "odd \xe9\udcff name.tjp"):
             data = full.encode("utf-8")
-            with open(os.path.join(cwd, alias), "wb") as f:
-                f.write(data)
+            try:
+                # (the last two names: a line break / bytes that are not UTF-8 in the file NAME - the name is not project text)
+                with open(os.path.join(cwd, alias), "wb") as f:
+                    f.write(data)
+            except (OSError, UnicodeError):
+                continue
             for fmt in ("json", "csv"):
                 rc, so, se = run_plan(["--quiet", "report"] + (["--csv"] if fmt == "csv" else []) + [alias], cwd, tmp, None)
                 loc["invocations"] += 1
@@ -232,8 +236,10 @@ def drive_c19(tier, seed, cfg):
                 if ref0 and (rc, so) != ref0:
                     out_v.append(("output-depends-on-file-name", dict(alias=alias, fmt=fmt, rc=rc, stdout=so[:160], with_tjp_name=(ref0[0], ref0[1][:160])),
                                   dict(property="C19", text=full, args=["report", alias], fmt=fmt, stdout=so[:600].decode("utf-8", "replace"))))
-            if alias != "copy.txt" and i % 3:
-                break
+            if alias == "copy_noext" and i % 3:
+                continue
+            if alias == "copy.tjp.bak" and i % 3 != 1:
+                continue
         # the same run in another environment: temporary directory reached through a symbolic link (the default on some
         # systems: /tmp -> private/tmp) - stdout must be byte-identical (seeded change C19-d compared a resolved path
         # with an unresolved one)
@@ -310,17 +316,26 @@ def drive_c19(tier, seed, cfg):
         ("blank-file", ["blank.tjp"], None, {1}),       # nothing but white space is "empty" on either channel
         ("blank-unicode-file", ["blanku.tjp"], None, {1}), ("blank-unicode-stdin", ["-"], "\u00a0\u2028 \n\u0085".encode("utf-8"), {1}),
         ("missing-with-overlong-name", ["m" * 5000 + ".tjp"], None, {1}),
+        ("closed-stdin", [], "<closed>", {1}),          # no file argument and no stdin at all: no input
         ("syntax", ["syntax.tjp"], None, {2}), ("syntax-stdin", ["-"], good.replace(b"{", b"{ {", 1), {2}), ("truncated", ["trunc.tjp"], None, {2}),
         ("invalid-report-name", ["badname.tjp"], None, {2}),
         ("not-decodable", ["latin1.tjp"], None, {1, 2}),
     ]
     for name, args, sin, want in cases:
         for fmt in ("json", "csv"):
-            rc, so, se = run_plan(["--quiet", "report"] + (["--csv"] if fmt == "csv" else []) + args, cwd, tmp, sin)
+            if sin == "<closed>":
+                try:
+                    r_ = subprocess.run([PLAN, "--quiet", "report"] + (["--csv"] if fmt == "csv" else []) + args, cwd=cwd, env=cli_env(tmp), capture_output=True,
+                                        timeout=180, preexec_fn=lambda: os.close(0))
+                    rc, so, se = r_.returncode, r_.stdout, r_.stderr
+                except subprocess.TimeoutExpired:
+                    rc, so, se = "timeout", b"", b""
+            else:
+                rc, so, se = run_plan(["--quiet", "report"] + (["--csv"] if fmt == "csv" else []) + args, cwd, tmp, sin)
             C["invocations"] += 1
             C["bad-input-invocations"] += 1
             sigs.add(common.dumps(("C19", "bad", name, fmt, rc)))
-            rp = dict(property="C19", cls=name, args=args, stdin=None if sin is None else sin[:200].decode("latin-1"), rc=rc, stdout=so[:300].decode("utf-8", "replace"),
+            rp = dict(property="C19", cls=name, args=args, stdin=None if sin is None else (sin if isinstance(sin, str) else sin[:200].decode("latin-1")), rc=rc, stdout=so[:300].decode("utf-8", "replace"),
                       stderr=se[-400:].decode("utf-8", "replace"))
             if rc not in want:
                 add("bad-input-exit-status", dict(cls=name, fmt=fmt, rc=rc, want=sorted(want), stderr=se[-200:]), dict(rp, clause="bad-input-exit-status"))
